@@ -70,8 +70,14 @@ def gen_case(rnd, spec):
         params = {"rate": rnd.choice([1, 2, 0.5, 4]), "low_utilisation": 0.5, "high_allocation": rnd.choice([0.5, 0.75])}
     elif kind == "factory":
         params = {"initial": rnd.randint(0, 3), "sizes": rnd.choice([[1], [2], [1, 3], [1, 2, 5]])}
+    elif kind == "switch":
+        params = {"slave_interval": rnd.choice([1, 7, 0.5, 10]), "start_demand": rnd.choice([10, 20, 40])}
     return {"kind": kind, "interval": interval, "start": start, "periods": periods, "actions": actions, "params": params,
             "default_interval": kind not in ("buffer", "factory") and interval == 1 and rnd.random() < 0.5}
+
+
+def rnd_slave_interval(case):
+    return case["params"].get("slave_interval", 1)
 
 
 def on_grid(t, start, interval, first=0):
@@ -116,7 +122,9 @@ def execute(case, result):
             def regulate(self, itv):
                 steps.append((vt.clock(), itv))
 
-        svc = DemandSwitch(pool, Rec(None), 15, LinearController(None, rate=1), **kw)
+        # the slave has an interval of its own: steps must still be sized by the switch's period
+        svc = DemandSwitch(pool, Rec(None), 15, LinearController(None, rate=1, interval=rnd_slave_interval(case)), **kw)
+        pool.poke(demand=case["params"].get("start_demand", 10))
     elif kind == "buffer":
         svc = Buffer(pool, window=interval)
     else:
@@ -157,6 +165,19 @@ def execute(case, result):
     # Buffer / FactoryPool: observe shortly after every boundary
     snapshots = []
     n_periods = int(case["periods"])
+    fsnaps = {}
+    if kind == "factory" and n_periods <= 400 and hasattr(svc, "_hatchery"):
+        def fsnap(tag, k):
+            def act():
+                kids = list(children)
+                fsnaps[(tag, k)] = {"hatchery": set(map(id, svc._hatchery)), "demand": {id(c): c.peek()["demand"] for c in kids},
+                                    "request": svc.demand, "supply": sum(c.peek()["supply"] for c in kids)}
+            return act
+        for k in range(1, n_periods + 1):
+            b = start + k * interval
+            if b + interval / 16 < until:
+                script.append((b - interval / 16, fsnap("before", k)))
+                script.append((b + interval / 16, fsnap("after", k)))
     if kind == "buffer" and n_periods <= 400:
         for k in range(0, n_periods + 1):
             b = start + k * interval
@@ -182,12 +203,24 @@ def execute(case, result):
             times = [e[3] for e in pool.log if e[0] == "r" and e[1] == "utilisation"]
         else:
             times = [t for t, _ in steps]
+            if kind == "switch":  # a step is either a call of the recording default or a utilisation read by the real slave
+                times = sorted(times + [e[3] for e in pool.log if e[0] == "r" and e[1] == "utilisation"])
             if any(itv != interval for _, itv in steps):
                 bad("steps performed with interval %r" % sorted({itv for _, itv in steps}))
         if times != expected_steps:
             bad("steps at %r..., expected one at start + k*interval: %r... (%d vs %d steps)"
                 % (times[:6], expected_steps[:6], len(times), len(expected_steps)))
         result.count("steps_checked", len(times))
+        if kind == "switch":
+            series = [(start, case["params"].get("start_demand", 10))] + [(e[3], e[2]) for e in pool.log if e[0] == "w"]
+            for (ta, da), (tb, db) in zip(series, series[1:]):
+                result.count("switch_slave_steps_checked")
+                if abs(db - da) != interval * 1:
+                    bad("the slave controller stepped by %r, rate x the switch's interval is %r" % (db - da, interval))
+                    break
+                if not on_grid(tb, start, interval):
+                    bad("the slave controller acted at %r, not on the switch's period" % tb)
+                    break
         if kind == "linear":
             rate = case["params"]["rate"]
             series = [(start, 10)] + [(e[3], e[2]) for e in pool.log if e[0] == "w"]
@@ -247,6 +280,22 @@ def execute(case, result):
             missing = [b for b in missing if first_child_time is not None and b > first_child_time]
             if missing:
                 bad("no adjustment at %r although children exist" % missing[:4])
+        for (tag, k), before in sorted(fsnaps.items(), key=lambda kv: kv[0][1]):
+            after = fsnaps.get(("after", k))
+            if tag != "before" or after is None:
+                continue
+            if any(a[0] == start + k * interval for a in case["actions"]):
+                continue  # an action exactly on this boundary may run before or after the adjustment
+            idle = [i for i in before["hatchery"] if before["demand"].get(i, 1) <= 0]
+            missing = before["request"] - sum(before["demand"].values())
+            if idle and any(i in after["hatchery"] for i in idle):
+                bad("adjustment %d left a child without demand active" % k)
+                break
+            if missing > 0 and before["supply"] <= before["request"] and sum(after["demand"].values()) < before["request"]:
+                bad("adjustment %d did not spawn although %r demand was missing" % (k, missing))
+                break
+            if idle or missing > 0:
+                result.count("factory_needed_adjustments_observed")
         result.count("factory_adjustments_checked", len(touched))
         result.count("factory_children_spawned", len(factory_calls))
     return problems
@@ -270,7 +319,8 @@ def run_shard(spec):
 
 def finish(total, tier):
     need = ["%s_runs" % k for k in KINDS] + ["steps_checked", "linear_pairs_checked", "buffer_target_writes",
-                                              "buffer_boundaries_checked", "factory_adjustments_checked", "factory_children_spawned"]
+                                              "buffer_boundaries_checked", "factory_adjustments_checked", "factory_children_spawned",
+                                              "factory_needed_adjustments_observed", "switch_slave_steps_checked"]
     for name in need:
         if not total.counters.get(name) and not total.violations:
             total.inconc("monitor never observed: " + name)
